@@ -1411,3 +1411,209 @@ def toy_random(rng, k, L=3):
         (meths[idx - 1] if kind == "m" else props[idx - 1])["deps"] = deps
     return {"name": f"random-{k}", "family": fam, "classes": rng.choice(["flat", "flat", "sub", "two"]), "NO": NO,
             "N0": rng.choice([1, NO]), "L": L, "atoms": _atoms(), "meths": meths, "props": props}
+
+
+# --------------------------------------------------------------------------------------------
+# real msdm classes
+# --------------------------------------------------------------------------------------------
+def _is_funcutils_wrapper(f):
+    code = getattr(f, "__code__", None)
+    return code is not None and code.co_filename.endswith("funcutils.py") and undecorated(f) is not None
+
+
+def discover(klass):
+    """names of the attributes of klass decorated with method_cache / cached_property."""
+    meths, props = [], []
+    for name in sorted(dir(klass)):
+        try:
+            _, attr = find_attr(klass, name)
+        except AttributeError:
+            continue
+        if isinstance(attr, property) and _is_funcutils_wrapper(attr.fget):
+            props.append(name)
+        elif inspect.isfunction(attr) and _is_funcutils_wrapper(attr):
+            meths.append(name)
+    return meths, props
+
+
+def _mdp_labels(family):
+    if family == "int":
+        return [0, 1, 2, 3], 0.0, 99, [0], ["a", "b"]
+    if family == "str":
+        return ["s0", "s1", "s2", "sT"], _StrTwin("s0"), "zz", ["s0"], ["a", "b"]
+    if family == "tuple":
+        return [(0, 0), (0, 1), (1, 0), (1, 1)], (0.0, 0), (9, 9), ([0], 0), [("a", 0), ("b", 1)]
+    return [0, "b", (2,), frozenset({3})], False, None, [0], ["a", 1]          # unsortable states and actions
+
+
+def mdp_binding(cfg):
+    """cfg: name, family int|str|tuple|mixed, explicit (state/action lists given), base subclass|quick|pomdp,
+    focus methods|props|spellings, NO, N0, L.  Object o is variant o of a 4-state chain (different dynamics, initial
+    distribution and action sets per variant, so that results of different objects differ)."""
+    from msdm.core.mdp import TabularMarkovDecisionProcess
+    from msdm.core.mdp.quickmdp import QuickTabularMDP
+    from msdm.core.pomdp.tabularpomdp import TabularPOMDP
+    from msdm.core.distributions import DictDistribution
+    S, twin0, bad, unh, A = _mdp_labels(cfg["family"])
+
+    def idx(s):
+        for i, x in enumerate(S):
+            if _hashable(s) and x == s and hash(x) == hash(s):
+                return i
+        raise KeyError(s)
+
+    def nsd(v, s, a):
+        i = idx(s)
+        if i == 3:
+            return DictDistribution({s: 1.0})
+        if a == A[0]:
+            return DictDistribution({S[i + 1]: 1.0})
+        if a == A[1]:
+            p = [0.5, 0.25, 0.75][v % 3]
+            return DictDistribution({S[i]: p, S[i + 1]: 1 - p})
+        raise KeyError(a)
+
+    def actions(v, s):
+        i = idx(s)
+        if i == 3:
+            return ()
+        return (A[0],) if (v % 2 == 0 and i == 1) else (A[0], A[1])
+
+    def isd(v):
+        return DictDistribution({S[0]: 1.0}) if v % 2 else DictDistribution({S[1]: 1.0})
+
+    base = cfg["base"]
+    parent = {"subclass": TabularMarkovDecisionProcess, "pomdp": TabularPOMDP}.get(base)
+    if parent is not None:
+        ns = {
+            "__init__": lambda self, v: (setattr(self, "v", v), setattr(self, "discount_rate", 0.9))[0],
+            "next_state_dist": lambda self, s, a: nsd(self.v, s, a),
+            "actions": lambda self, s: actions(self.v, s),
+            "initial_state_dist": lambda self: isd(self.v),
+            "is_absorbing": lambda self, s: idx(s) == 3,
+            "reward": lambda self, s, a, ns: -1.0 - self.v * idx(ns),
+        }
+        if base == "pomdp":
+            ns["observation_dist"] = lambda self, a, ns_: DictDistribution({("o", (idx(ns_) + self.v) % 2): 1.0})
+        klass = type("ChainPOMDP" if base == "pomdp" else "ChainMDP", (parent,), ns)
+
+        def make(o):
+            m = klass(o)
+            if cfg["explicit"]:
+                m._state_list = list(S)
+                m._action_list = list(A)
+            return m
+    else:
+        klass = QuickTabularMDP
+
+        def make(o):
+            m = QuickTabularMDP(next_state_dist=lambda s, a: nsd(o, s, a), reward=lambda s, a, ns: -1.0 - o * idx(ns),
+                                actions=lambda s: actions(o, s), initial_state_dist=lambda: isd(o),
+                                is_absorbing=lambda s: idx(s) == 3, discount_rate=0.9)
+            if cfg["explicit"]:
+                m._state_list = list(S)
+                m._action_list = list(A)
+            return m
+    inf = float("inf")
+    focus = cfg["focus"]
+    T = lambda *f: 1 if focus in f else 0
+    m1 = [((S[0], A[0]), [], T("methods", "spellings")), ((S[1], A[0]), [], T("methods", "spellings")),
+          ((S[0], A[1]), [], T("spellings")), ((), [("s", S[0]), ("a", A[0])], T("methods", "spellings")),
+          ((S[0],), [("a", A[0])], T("spellings")), ((), [("a", A[0]), ("s", S[0])], T("spellings")),
+          ((twin0, A[0]), [], T("spellings")), ((bad, A[0]), [], T("spellings")), ((unh, A[0]), [], T("spellings")),
+          ((S[0],), [("a", unh)], T("spellings")), ((S[0],), [], T("spellings")), ((S[0], A[0], A[0]), [], T("spellings")),
+          ((S[0], A[0]), [("zz", 1)], T("spellings"))]
+    m2 = [((S[0],), [], T("methods", "spellings", "props")), ((S[3],), [], T("methods", "spellings")),
+          ((S[1],), [], T("spellings")), ((), [("s", S[0])], T("spellings")), ((twin0,), [], T("spellings")),
+          ((bad,), [], T("spellings"))]
+    m3 = [((), [], T("methods", "spellings", "props")), ((2,), [], T("methods", "spellings")),
+          ((), [("max_states", 2)], T("methods", "spellings")), ((inf,), [], T("spellings")),
+          ((), [("max_states", inf)], T("spellings")), ((2.0,), [], T("spellings")), ((1,), [], T("spellings")),
+          ((), [("max_states", [2])], T("spellings")), ((None,), [], T("spellings")), ((), [("max_state", 2)], T("spellings"))]
+    meths = [{"name": "_cached_next_state_dist", "sps": m1}, {"name": "_cached_actions", "sps": m2},
+             {"name": "reachable_states", "sps": m3}]
+    dm, dp = discover(klass)
+    if base == "pomdp":
+        meths.append({"name": "_cached_observation_dist", "sps": [((A[0], S[1]), [], T("methods", "spellings")),
+                                                                    ((), [("ns", S[1]), ("a", A[0])], T("spellings"))]})
+    for name in dm:
+        if name not in [m["name"] for m in meths]:
+            meths.append({"name": name, "sps": []})
+    tops = {"methods": {"state_list": 1, "transition_matrix": 1},
+            "spellings": {"state_list": 1},
+            "props": {"state_list": 2, "action_list": 1, "transition_matrix": 2, "reward_matrix": 1, "absorbing_state_vec": 1,
+                      "reachable_state_vec": 1, "initial_state_vec": 1, "state_action_reward_matrix": 1,
+                      "observation_matrix": 1, "observation_list": 1}}[focus]
+    props = [{"name": n, "top": tops.get(n, 0)} for n in dp]
+    NO = cfg["NO"]
+    return Binding(dict(cfg), [klass] * NO, make, meths, props, list(range(1, NO + 1)), cfg["N0"], cfg["L"], False, "")
+
+
+def sweep_binding(cfg):
+    """cfg: name (a class of msdm), L.  Two differently parameterised instances; every cached property is read at the
+    top level (the first two are also written / deleted), cached methods with the spellings given here."""
+    name = cfg["name"]
+    meths = []
+    if name == "GridWorld":
+        from msdm.domains import GridWorld
+        klass = GridWorld
+        make = lambda o: GridWorld(tile_array=["s.g", "..."] if o == 1 else [".s", "g#", ".."], step_cost=-o)
+    elif name == "WindyGridWorld":
+        from msdm.domains.gridmdp.windygridworld import WindyGridWorld
+        from msdm.domains.gridmdp import Location, GridAction
+        klass = WindyGridWorld
+        make = lambda o: WindyGridWorld(grid="@.>$\n...." if o == 1 else "$<.\n.@.", wind_probability=0.5 if o == 1 else 0.25)
+        meths = [{"name": "next_state_reward_dist",
+                  "sps": [((Location(1, 0), GridAction(1, 0)), [], 1), (((1, 0), (1, 0)), [], 1),
+                          ((), [("a", GridAction(0, 1)), ("s", Location(0, 0))], 1)]}]
+    elif name == "Tiger":
+        from msdm.domains.tiger import Tiger
+        klass = Tiger
+        make = lambda o: Tiger(coherence=0.85 if o == 1 else 0.7, discount_rate=0.9)
+        meths = [{"name": "_cached_observation_dist", "sps": [(("listen", "left"), [], 1), ((), [("ns", "left"), ("a", "listen")], 1)]}]
+    elif name == "TableIndex":
+        from msdm.core.table.tableindex import TableIndex
+        klass = TableIndex
+        make = lambda o: TableIndex(field_names=["a", "b"] if o == 1 else ["b"],
+                                    field_domains=[(1, 2), ("x", "y", "z")] if o == 1 else [(), ][:0] + [("x",)])
+    elif name == "domaintuple":
+        from msdm.core.table.tableindex import domaintuple
+        klass = domaintuple
+        make = lambda o: domaintuple([3, 4, (5,)]) if o == 1 else domaintuple(())
+    elif name == "ImplicitDistribution":
+        from msdm.core.distributions.distributions import ImplicitDistribution
+        klass = ImplicitDistribution
+        make = lambda o: ImplicitDistribution(lambda rng: rng.random(), n_samples=5, _seed=o)
+    elif name == "FromMatrices":
+        import numpy as np
+        from msdm.core.mdp import TabularMarkovDecisionProcess
+        from msdm.core.mdp.quickmdp import QuickTabularMDP
+        klass = QuickTabularMDP
+
+        def make(o):
+            tf = np.zeros((2, 2, 2))
+            tf[0, 0] = [0.5, 0.5] if o == 1 else [0.25, 0.75]
+            tf[0, 1] = [0, 1]
+            tf[1, :, 1] = 1
+            return TabularMarkovDecisionProcess.from_matrices(
+                state_list=["x", "y"], action_list=[0, 1], initial_state_vec=np.array([1.0, 0.0]), transition_matrix=tf,
+                action_matrix=np.ones((2, 2)), reward_matrix=-np.ones((2, 2, 2)) * o,
+                absorbing_state_vec=np.array([False, True]), discount_rate=0.9)
+        meths = [{"name": "reachable_states", "sps": [((), [], 1), ((), [("max_states", 1)], 1)]},
+                 {"name": "_cached_actions", "sps": [(("x",), [], 1)]}]
+    else:
+        raise ValueError(name)
+    dm, dp = discover(klass)
+    for n in dm:
+        if n not in [m["name"] for m in meths]:
+            meths.append({"name": n, "sps": []})
+    props = [{"name": n, "top": 2 if k < 2 else 1} for k, n in enumerate(dp)]
+    return Binding(dict(cfg), [klass, klass], make, meths, props, [1, 2], 2, cfg["L"], False, "")
+
+
+def make_binding(desc):
+    if desc["kind"] == "toy":
+        return toy_binding(desc["cfg"])
+    if desc["kind"] == "mdp":
+        return mdp_binding(desc)
+    return sweep_binding(desc)
